@@ -29,6 +29,24 @@ class Boom(Exception):
     """the exception raised by instrumented jobs; one unique object per raise"""
 
 
+class CustomError(Exception):
+    """an exception that cannot be re-created from its args"""
+
+    def __init__(self, who, detail):
+        super().__init__("custom failure of %s" % who)
+        self.who, self.detail = who, detail
+
+
+def make_exception(kind, who):
+    if kind == 'timeout':
+        return TimeoutError("job %s gave up" % who)     # a job's own TimeoutError is an ordinary exception
+    if kind == 'key':
+        return KeyError(who)
+    if kind == 'custom':
+        return CustomError(who, detail=object())
+    return Boom(who)
+
+
 class Trace:
     def __init__(self, loop):
         self.events = []
@@ -96,7 +114,7 @@ async def body(trace, spec, who):
             trace.log('cancel_done', who, interrupted=interrupted)
         raise
     if spec.get('outcome') == 'raise':
-        exc = Boom(who)
+        exc = make_exception(spec.get('exc'), who)
         trace.log('raise', who, exc=exc)
         raise exc
     val = Result(who)
